@@ -156,7 +156,7 @@ def make_case(seed, idx, tier):
     }
 
 
-def _cluster(genomes, fits, maximize, factor, trunc, n_objs=1, int_best=False):
+def _cluster(genomes, fits, maximize, factor, trunc, n_objs=1, int_best=False, peek=False):
     from pyhms.core.individual import Individual
     from pyhms.core.problem import FunctionProblem
     from pyhms.utils.clusterization import NearestBetterClustering
@@ -176,6 +176,13 @@ def _cluster(genomes, fits, maximize, factor, trunc, n_objs=1, int_best=False):
 
     with warnings.catch_warnings():
         warnings.simplefilter("ignore")
+        if peek:
+            # the public read-only views looked at before clustering (a plotting helper, a debugger, a log line): must not matter
+            for attr in ("distances", "tree"):
+                try:
+                    getattr(nbc, attr)
+                except Exception:
+                    pass
         out = nbc.cluster()
         dists = list(nbc.distances)
     idx_of = {id(i): k for k, i in enumerate(inds)}
@@ -258,7 +265,10 @@ def run_case(desc):
     try:
         n_objs = desc.get("n_problem_objects", 1)
         cov[f"problem_objects.{min(n_objs, 3)}"] += 1
-        got, dists = _cluster(genomes, fits, maximize, factor, trunc, n_objs, int_best=(cls == "int_best"))
+        peek = desc.get("idx", 0) % 5 == 2
+        if peek:
+            cov["public_views_read_before_clustering"] += 1
+        got, dists = _cluster(genomes, fits, maximize, factor, trunc, n_objs, int_best=(cls == "int_best"), peek=peek)
     except Exception as e:
         viol("clustering raised an exception", error=repr(e)[:200])
         return {"violations": violations, "cov": cov, "nontrivial": [], "sample": None}
